@@ -120,6 +120,38 @@ def check_constructed(aname, bname, tA, tB, alpha, scale, acc, how='method', sca
                       detail='%d reported in total, %d near the constructed crossing' % (len(r[1]), len(hits)))
 
 
+def check_thin_arcs(acc, only=None):
+    """nearly straight arcs (radius 1e7 / 3e6, chord ~1: sweeps of 6e-6 / 4e-5 degrees) crossed transversally by a line
+    and by a cubic well inside both"""
+    for aname in AB.EXTRA_ARCS:
+        A = AB.make(aname)
+        for tA in (0.1, 0.3, 0.5, 0.7, 0.9):
+            P = A.point(tA)
+            d = (A.end - A.start) / abs(A.end - A.start)
+            for other in ('line', 'cubic'):
+                if other == 'line':
+                    B = Line(P - 0.3j * d + 0.05 * d, P + 0.4j * d - 0.0666 * d)
+                    tB = 3.0 / 7.0
+                else:
+                    B = CubicBezier(P - 0.3j * d, P - 0.1j * d + 0.02 * d, P + 0.1j * d - 0.02 * d, P + 0.3j * d)
+                    tB = 0.5
+                for order, X, Y, tx, ty in (('arc_first', A, B, tA, tB), ('arc_second', B, A, tB, tA)):
+                    case = {'what': 'thin_arc', 'arc': aname, 'tA': tA, 'other': other, 'order': order}
+                    if only is not None and only != case:
+                        continue
+                    acc.case(case, cls='thin_arc/%s/%s' % (other, order))
+                    r = outcome(lambda: X.intersect(Y))
+                    sig = {'pair': ('A' + other[0].upper()) if order == 'arc_first' else (other[0].upper() + 'A'), 'thin_arc': True,
+                           'arc_rotated': A.rotation != 0}
+                    if r[0] != 'ok':
+                        acc.violation('intersect_raises', dict(sig, exc=r[1]), case, observed=r)
+                        continue
+                    hits = [h for h in r[1] if abs(h[0] - tx) <= 1e-4 and abs(h[1] - ty) <= 1e-4]
+                    if len(hits) != 1:
+                        acc.violation('crossing_missed' if not hits else 'crossing_reported_more_than_once', sig, case,
+                                      observed=[list(map(float, h)) for h in r[1]][:6], expected='one pair within 1e-4 of (%r, %r)' % (tx, ty))
+
+
 def check_single_segment_paths(acc, only=None):
     """paths that consist of ONE segment - among them a single Bezier that is a closed loop (start == end) - crossed by
     a line path: Path.intersect reports what the segment solver reports for the pair (the segment families decide that
@@ -321,6 +353,7 @@ def shards(tier, seed):
     out.append({'what': 'circles'})
     out.append({'what': 'axis_lines'})
     out.append({'what': 'single_segment_paths'})
+    out.append({'what': 'thin_arcs'})
     out += [{'what': 'grid', 'size': list(sz), 'kinds': k, 'long': lg}
             for sz in (isect.GRID_SIZES_QUICK if tier == 'quick' else isect.GRID_SIZES_THOROUGH)
             for k in (('L',) if sz[0] * sz[1] > 1100 else ('L', 'LQC')) for lg in (False, True, 'over_zigzag', 'far_fine')]
@@ -362,6 +395,8 @@ def run_shard(desc, tier, seed):
                     check_circles(R, bs, tA, tB, al, acc)
     elif desc['what'] == 'exact':
         check_exact(desc['B'], desc['rot'], tp['lat'], acc)
+    elif desc['what'] == 'thin_arcs':
+        check_thin_arcs(acc)
     elif desc['what'] == 'single_segment_paths':
         check_single_segment_paths(acc)
     elif desc['what'] == 'axis_lines':
@@ -388,6 +423,9 @@ def space(tier, seed):
 
 def replay(case):
     acc = core.ReplayAcc()
+    if case['what'] == 'thin_arc':
+        check_thin_arcs(acc, only=case)
+        return acc.vlist
     if case['what'] == 'single_segment_path':
         check_single_segment_paths(acc, only={k: v for k, v in case.items() if k != 'order'})
         acc.vlist = [v for v in acc.vlist if v['case'].get('order') == case.get('order')]
